@@ -172,7 +172,8 @@ class SymArray:
         return self._arith(o, lambda a, b: b * a)
 
     def __mod__(self, o):
-        return self._arith(o, lambda a, b: a % b)
+        # numpy integer arrays: x % 0 == 0 (with a RuntimeWarning), no exception
+        return self._arith(o, lambda a, b: 0 if (not isinstance(b, Sym) and b == 0 and self.dtype.startswith("int")) else a % b)
 
     # boolean masks: & | ~ (element-wise)
     def __and__(self, o):
